@@ -652,7 +652,7 @@ fn gen_history(rng: &mut Rng, maxlen: u64) -> Vec<Op> {
     let n = (match rng.below(10) {
         0..=3 => 2 + rng.below(15),
         4..=7 => 15 + rng.below(50),
-        _ => 60 + rng.below(120),
+        _ => 60 + rng.below(maxlen.saturating_sub(60).max(1)),
     })
     .min(maxlen) as usize;
     // insert delete delprefix get mut iter newgen normalize freeze store load cache serial migrate
@@ -837,6 +837,44 @@ fn directed() {
         serde_json::json!({"unchanged_collected": unchanged, "same_hash": hash_of(&ps, &store) == hash_of(&ps2, &store),
                            "one_key_collected": one_key, "hash_changed": hash_of(&ps3, &store) != hash_of(&ps2, &store)})
     );
+    // 1b. the public MutableState API: thaw / get_inner / make_fresh_generation (rolled back) / freeze with a collector
+    let r = guarded(|| {
+        use concordium_smart_contract_engine::v1::trie::MutableState;
+        let store: Vec<u8> = Vec::new();
+        let mut loader = Loader::new(&store[..]);
+        let mut ms = ps.thaw();
+        {
+            let inner = ms.get_inner(&mut loader);
+            inner.lock().insert(&mut loader, b"zz", vec![7; 65]).unwrap();
+        }
+        {
+            let mut inner_gen: MutableState = ms.make_fresh_generation(&mut loader);
+            let inner = inner_gen.get_inner(&mut loader);
+            inner.lock().insert(&mut loader, b"dropped", vec![1]).unwrap();
+            let _ = inner.lock().delete(&mut loader, b"aa");
+        }
+        let mut c = SizeCollector::default();
+        let frozen = ms.freeze(&mut loader, &mut c);
+        let collected = c.collect();
+        let mut expect = items.clone();
+        expect.push((b"zz".to_vec(), vec![7; 65]));
+        let reference = PersistentState::from_iterator(expect.iter().map(|(k, v)| (&k[..], v.clone())));
+        let same = hash_of(&frozen, &store) == hash_of(&reference, &store) && contents(&frozen, &store).0 == contents(&reference, &store).0;
+        // refreeze through the API without touching anything
+        let mut ms2 = frozen.thaw();
+        let _ = ms2.get_inner(&mut loader);
+        let mut c2 = SizeCollector::default();
+        let again = ms2.freeze(&mut loader, &mut c2);
+        (same, collected, c2.collect(), hash_of(&again, &store) == hash_of(&frozen, &store))
+    });
+    match r {
+        Ok((same, collected, again, same_hash)) => println!(
+            "D api {}",
+            serde_json::json!({"rollback_invisible_and_hash_canonical": same, "collected": collected,
+                               "refreeze_collected": again, "refreeze_same_hash": same_hash})
+        ),
+        Err(e) => println!("D api {}", serde_json::json!({"panic": e})),
+    }
     // 2. observation: `migrate` rewrites the child links of the *source* state to references into the new store
     let r = guarded(|| {
         let mut old_store: Vec<u8> = Vec::new();
